@@ -334,3 +334,51 @@ func TestFindingF17XattrOnlyWriteOnMissingKey(t *testing.T) {
 	require.NoError(t, err)
 	require.True(t, added, "Add must create a key that has no body")
 }
+
+// F18 [C05,C06,C09,C14] DeleteWithXattrs nulls the body but leaves tombstone=0, isJSON and the expiry: Add is refused afterwards
+// and the backfill announces a mutation.
+func TestFindingF18DeleteWithXattrs(t *testing.T) {
+	_, c := findingBucket(t)
+	require.NoError(t, c.SetRaw("k", 2000000000, nil, []byte(`{"v":1}`)))
+	_, err := c.SetXattrs(context.Background(), "k", map[string][]byte{"_x": []byte(`{"a":1}`), "u": []byte(`{"b":2}`)})
+	require.NoError(t, err)
+	require.NoError(t, c.DeleteWithXattrs(context.Background(), "k", []string{"u"}))
+	r := findingReadRow(t, c, "k")
+	require.True(t, r.valueNull)
+	require.Equal(t, 1, r.tombstone, "a document without a body is a tombstone")
+	require.Equal(t, int64(0), r.exp, "expiry is cleared by delete")
+	added, err := c.AddRaw("k", 0, []byte(`{"v":2}`))
+	require.NoError(t, err)
+	require.True(t, added, "Add must create a key that has no body")
+}
+
+// F19 [C07,C08,C17,C20] DeleteSubDocPaths commits, then panics ("event missing revSeqNo"); the revision number is not advanced.
+func TestFindingF19DeleteSubDocPaths(t *testing.T) {
+	_, c := findingBucket(t)
+	require.NoError(t, c.SetRaw("k", 0, nil, []byte(`{"v":1}`)))
+	_, err := c.SetXattrs(context.Background(), "k", map[string][]byte{"u": []byte(`{"b":2}`)})
+	require.NoError(t, err)
+	before := findingReadRow(t, c, "k")
+	var panicked interface{}
+	func() {
+		defer func() { panicked = recover() }()
+		require.NoError(t, c.DeleteSubDocPaths(context.Background(), "k", "u"))
+	}()
+	require.Nil(t, panicked, "DeleteSubDocPaths must not panic after committing")
+	require.Equal(t, before.rev+1, findingReadRow(t, c, "k").rev)
+}
+
+// F20 [C08] the DeleteSubDocPaths event says datatype raw and expiry 0 whatever the stored document says.
+func TestFindingF20DeleteSubDocPathsEvent(t *testing.T) {
+	_, c := findingBucket(t)
+	require.NoError(t, c.SetRaw("k", 2000000000, nil, []byte(`{"v":1}`)))
+	require.NoError(t, c.Set("j", 2000000000, nil, map[string]any{"v": 1}))
+	_, err := c.SetXattrs(context.Background(), "j", map[string][]byte{"u": []byte(`{"b":2}`), "w": []byte(`{"c":3}`)})
+	require.NoError(t, err)
+	events := findingFeed(t, c)
+	require.NoError(t, c.DeleteSubDocPaths(context.Background(), "j", "u"))
+	e := findingNext(t, events)
+	require.NotNil(t, e)
+	require.Equal(t, uint32(2000000000), e.Expiry, "the event carries the document's expiry")
+	require.NotZero(t, e.DataType&sgbucket.FeedDataTypeJSON, "the event carries the document's datatype")
+}
